@@ -47,6 +47,7 @@ def show(t):
 
 class Eval:
     helpers: Dict[str, ast.FunctionDef] = {}      # module-level single-return helper functions (inlined at their call sites)
+    namedtuples: Dict[str, tuple] = {}            # module-level namedtuple classes: a construction is a tuple, a field read an item
     methods: Dict[str, ast.FunctionDef] = {}      # the analysed class's other methods: `self.m(...)` is inlined (a generator method is fused into the loop that consumes it)
 
     def __init__(self, ctx, rel, qual, flag: bool, self_attrs=None):
@@ -80,6 +81,9 @@ class Eval:
             b = self.ev(n.value)
             if b == ("SELF", "_config") or b == ("CFG",):
                 return ("CFGFIELD", n.attr)
+            idxs = {f.index(n.attr) for f in self.namedtuples.values() if n.attr in f}
+            if len(idxs) == 1 and b[0] not in ("NAME", "SELF", "CFG"):
+                return self.item(b, idxs.pop())
             return ("ATTR", b, n.attr)
         if isinstance(n, (ast.List, ast.Tuple)):
             if not n.elts:
@@ -228,6 +232,14 @@ class Eval:
         self.calls.append(n)
         name = self.fname(n.func)
         args = [self.ev(a) for a in n.args]
+        if isinstance(n.func, ast.Name) and n.func.id in self.namedtuples and n.func.id not in self.env:
+            fields = self.namedtuples[n.func.id]
+            vals = list(args) + [None] * (len(fields) - len(args))
+            for k in n.keywords:
+                if k.arg in fields:
+                    vals[fields.index(k.arg)] = self.ev(k.value)
+            if all(v is not None for v in vals) and len(vals) == len(fields):
+                return ("TUPLE",) + tuple(vals)
         if name == "cse" and isinstance(n.func, ast.Name):
             return ("CSE", args[0] if args else ("?",))
         if name == "simplify" and isinstance(n.func, ast.Name):
@@ -285,6 +297,12 @@ class Eval:
             kw = {k.arg: self.ev(k.value) for k in n.keywords}
             vals = args + [kw.get("value")] if "value" in kw else args
             return ("MEMBER",) + tuple(vals)
+        if isinstance(n.func, ast.Attribute) and not (isinstance(n.func.value, ast.Name) and n.func.value.id == "self"):
+            # a field of a namedtuple entry that holds a callable (`entry.impl(...)`)
+            callee0 = self.ev(n.func)
+            if callee0[0] in ("ITEM", "IDX"):
+                kws = [("KW", k.arg, self.ev(k.value)) for k in n.keywords]
+                return ("APPLY", callee0, tuple(args), tuple(kws))
         if isinstance(n.func, ast.Name) and n.func.id in self.env or (isinstance(n.func, ast.Subscript)):
             callee = self.ev(n.func)
             star = [a for a in args if a[0] == "STAR"]
@@ -652,6 +670,8 @@ def check_python_block(ctx: core.Ctx, mod: ast.Module, rel="py/formak/python.py"
     n1 = 0
     flag_uses = set()
     Eval.methods = {m.name: m for m in cls.body if isinstance(m, ast.FunctionDef) and m.name not in ("__init__", "_compile", "execute")}
+    from . import normast as _nm
+    Eval.namedtuples = _nm.module_namedtuples(mod)
     inlined = set()
     for flag in (True, False):
         e = Eval(ctx, rel, qual, flag, base).run(comp)
@@ -912,6 +932,8 @@ def check_cpp_block(ctx: core.Ctx, mod: ast.Module, rel="py/formak/cpp.py"):
     cfgattr = next((k for k, v in e0.attrs.items() if v == ("PARAM", "config")), "_config")
     n = 0
     Eval.methods = {m.name: m for m in cls.body if isinstance(m, ast.FunctionDef) and m.name not in ("__init__", "compile")}
+    from . import normast as _nm
+    Eval.namedtuples = _nm.module_namedtuples(mod)
     inlined = set()
     order_ok = True
     for flag in (True, False):
